@@ -47,6 +47,13 @@ pub fn world(args: &[String]) -> i32 {
             dir.join("system.dic").display(), unames.join(","), i.join(","), o.join(","), p.join(",")
         );
         std::fs::write(dir.join(format!("{}.json", name)), cfg).unwrap();
+        // the same stack without user dictionaries: loading it analyses nothing (no cost to compute), so whatever is initialised at the
+        // first analysis is still uninitialised when the threads of a cold start begin
+        let cold = format!(
+            r#"{{"systemDict":"{}","userDict":[],"characterDefinitionFile":"char.def","inputTextPlugin":[{}],"oovProviderPlugin":[{}],"pathRewritePlugin":[{}]}}"#,
+            dir.join("system.dic").display(), i.join(","), o.join(","), p.join(",")
+        );
+        std::fs::write(dir.join(format!("{}-cold.json", name)), cold).unwrap();
     }
     println!("{}", json!({"dir": dir.display().to_string(), "configs": ["default", "full", "regex"]}));
     0
